@@ -143,6 +143,24 @@ def _functions(tree: ast.AST, prefix: str = "") -> Dict[str, ast.AST]:
     return out
 
 
+def _skeleton(tree: ast.Module) -> List[Any]:
+    out: List[Any] = []
+    for n in tree.body:
+        if isinstance(n, (ast.FunctionDef, ast.AsyncFunctionDef)):
+            continue
+        if isinstance(n, ast.Assign) and any(isinstance(t, ast.Name) and t.id in ("DATA", "MEMO") for t in n.targets):
+            continue
+        if isinstance(n, ast.ClassDef):
+            rest = [x for x in n.body if not isinstance(x, (ast.FunctionDef, ast.AsyncFunctionDef, ast.ClassDef))]
+            rest = [x for x in rest if not (isinstance(x, ast.Expr) and isinstance(x.value, ast.Constant))]
+            out.append(("class", n.name, [ast.unparse(b) for b in n.bases], [ast.unparse(d) for d in n.decorator_list], [ast.dump(x) for x in rest]))
+        elif isinstance(n, ast.Expr) and isinstance(n.value, ast.Constant):
+            continue
+        else:
+            out.append(("stmt", ast.dump(n)))
+    return out
+
+
 def runtime_against_installed(rep: Report, tree: ast.Module, embedded: str, installed: str) -> None:
     """R16.9: every function of the embedded runtime is compared (AST, docstrings and annotations
     removed) with the function of the same qualified name in the installed Lark's *source*.  The two
@@ -182,6 +200,22 @@ def runtime_against_installed(rep: Report, tree: ast.Module, embedded: str, inst
                   f"{k} in the embedded Lark runtime is no longer identical to Lark {installed}'s {k} (it was at the pinned commit, and it is not "
                   "one of the functions that differ between the two Lark versions): the generated parser was edited by hand, so it no "
                   "longer runs the compared tables the way a parser built from the grammar does", f"src/measured/_parser.py:{v.lineno}")
+    # R16.10: the residue and the skeleton against the pinned generator output
+    if embedded == table["embedded"] and "digests" in table:
+        import hashlib
+        for k, want in sorted(table["digests"].items()):
+            v = shipped.get(k)
+            got = hashlib.sha256(ast.dump(_strip_for_compare(v)).encode()).hexdigest()[:24] if v is not None else "missing"
+            rep.check("R16.10", f"runtime:{k}", got == want,
+                      f"{k} in the embedded Lark {embedded} runtime is not what the generator emitted (the embedded version string is unchanged, so the "
+                      "file was not regenerated): a hand edit of generated code", f"src/measured/_parser.py:{getattr(v, 'lineno', 0)}")
+        sk = hashlib.sha256(repr(_skeleton(tree)).encode()).hexdigest()[:24]
+        rep.check("R16.10", "runtime:module-and-class-skeleton", sk == table.get("skeleton_digest"),
+                  "the module-level code or a class body (bases, class attributes) of the embedded runtime differs from the generator's output "
+                  f"for Lark {embedded}", "src/measured/_parser.py")
+    else:
+        rep.rules["R16.10"].floor = 0
+        rep.inventory("R16.10", {"note": f"embedded Lark {embedded}: no pinned generator output for this version"})
     rep.analysed["runtime_functions"] = {"embedded": len(shipped), "identical_to_installed": same, "residue_not_compared": len(residue),
                                          "table_applies": applicable}
     if not applicable:
@@ -234,6 +268,8 @@ def parser_wiring(rep: Report, tree: ast.Module) -> None:
 
 
 def run(rep: Report) -> None:
+    rep.rule("R16.10", "the part of the embedded runtime no installed generator can reproduce (59 functions that differ between Lark versions, module "
+             "and class skeleton) is the generator's pinned output while the embedded version string is unchanged", floor=60)
     rep.rule("R16.9", "embedded runtime vs installed Lark source: every function outside the recorded version-difference residue is identical", floor=150)
     rep.rule("R16.8", "embedded LALR driver wiring: actions and gotos come from the (compared) tables, reductions pop the rule's length", floor=5)
     rep.rule("R16.7", "embedded lexer wiring: input is consumed only through the scanner built from the (compared) terminal table", floor=5)
